@@ -44,13 +44,25 @@ fn build(c: &Case) -> Vec<Tk> {
     v
 }
 
+/// an input iterator whose size_hint is valid but says nothing
+struct LooseHint<I>(I, Option<usize>);
+impl<I: Iterator> Iterator for LooseHint<I> {
+    type Item = I::Item;
+    fn next(&mut self) -> Option<I::Item> {
+        self.0.next()
+    }
+    fn size_hint(&self) -> (usize, Option<usize>) {
+        (0, self.1)
+    }
+}
+
 impl Property for C15 {
     type Input = Case;
     fn id(&self) -> &'static str {
         "C15"
     }
     fn rule(&self) -> String {
-        "Generated: own-token streams of 0..14 tokens (number words of every class, speller phrases, ordinals, conjunction / separator / linking / ordinary words, punctuation and whitespace tokens), optionally repeated up to 40 times, with per-token 'separated from predecessor' hints (carried either as a flag on the token or as a pause recorded on the preceding token and read through the `previous` argument of nt_separated) and 'not a number part' hints placed only on tokens the scanner looks at (never on whitespace-only or bare '-' tokens) and forced, in half of the cases, onto a token inside what would otherwise be one number (incl. right after a conjunction or separator word); any threshold. Oracle: (1) collect(find_numbers_iter) == find_numbers, two more next() calls after None return None, and fold / for_each / count / last / nth+rest / nth and skip beyond the end / step_by / peekable / size_hint agree with it, and two lazy searches over the same tokens advanced alternately (the second with threshold 0) give the two batch results; hyphenated words are sometimes given as separate tokens with a bare '-' between them; (2) laziness with a counting adaptor on the input: nothing is consumed before the first next(); when the k-th occurrence is yielded, the number of tokens consumed is <= the end of the (k+2)-th occurrence of the batch result when that exists; (3) for every hinted token i with predecessor j (previous non-skipped token): no occurrence contains both; and the stream with that hint cleared and a ',' token inserted before i yields the same occurrences after index mapping; (4) no occurrence contains a token flagged 'not a number part'. Non-trivial = distinct streams where a hint falls inside what the unhinted stream reads as one number, or with >= 4 occurrences (needed for the look-ahead bound).".into()
+        "Generated: own-token streams of 0..14 tokens (number words of every class, speller phrases, ordinals, conjunction / separator / linking / ordinary words, punctuation and whitespace tokens), optionally repeated up to 40 times, with per-token 'separated from predecessor' hints (carried either as a flag on the token or as a pause recorded on the preceding token and read through the `previous` argument of nt_separated) and 'not a number part' hints placed only on tokens the scanner looks at (never on whitespace-only or bare '-' tokens) and forced, in half of the cases, onto a token inside what would otherwise be one number (incl. right after a conjunction or separator word); any threshold. Oracle: (1) collect(find_numbers_iter) == find_numbers, two more next() calls after None return None, and fold / for_each / count / last / nth+rest / nth and skip beyond the end / step_by / peekable / size_hint (also over an input whose own size_hint is (0, Some(usize::MAX)) or (0, None), asked before and after every step) agree with it, and two lazy searches over the same tokens advanced alternately (the second with threshold 0) give the two batch results; hyphenated words are sometimes given as separate tokens with a bare '-' between them; (2) laziness with a counting adaptor on the input: nothing is consumed before the first next(); when the k-th occurrence is yielded, the number of tokens consumed is <= the end of the (k+2)-th occurrence of the batch result when that exists; (3) for every hinted token i with predecessor j (previous non-skipped token): no occurrence contains both; and the stream with that hint cleared and a ',' token inserted before i yields the same occurrences after index mapping; (4) no occurrence contains a token flagged 'not a number part'. Non-trivial = distinct streams where a hint falls inside what the unhinted stream reads as one number, or with >= 4 occurrences (needed for the look-ahead bound).".into()
     }
     fn assumptions(&self) -> Vec<String> {
         vec!["hints are generated on tokens the scanner examines only: whitespace-only and bare '-' tokens are dropped before hints are read, and no real annotator flags them".into()]
@@ -224,6 +236,27 @@ impl Property for C15 {
             if occs(ra) != batch || occs(rb) != other {
                 return Err(format!("[{}] th={}: two lazy searches over the same tokens, advanced alternately (the second with threshold 0), do not give the two batch results
  stream {:?}", c.lang, fmt_th(c.th_bits), texts()));
+            }
+            // an input whose size_hint is valid but loose ((0, Some(usize::MAX)) or (0, None), as a channel or
+            // a hand-written feed reports): size_hint is asked before and after every step and must bracket what
+            // is still to come; collect() (which reserves from size_hint) must give the batch result
+            for upper in [Some(usize::MAX), None, Some(usize::MAX - 1)] {
+                let mut it = find_numbers_iter(LooseHint(stream.iter(), upper), lg, th);
+                let mut left = batch.len();
+                loop {
+                    let (lo, hi) = it.size_hint();
+                    if lo > left || hi.map_or(false, |h| h < left) {
+                        return Err(format!("[{}] size_hint {:?} with {} occurrences still to come (input size_hint (0, {:?}))\n stream {:?}", c.lang, (lo, hi), left, upper, texts()));
+                    }
+                    if it.next().is_none() {
+                        break;
+                    }
+                    left = left.saturating_sub(1);
+                }
+                let all: Vec<_> = find_numbers_iter(LooseHint(stream.iter(), upper), lg, th).collect();
+                if occs(all) != batch {
+                    return Err(format!("[{}] collect() over an input with size_hint (0, {:?}) differs from batch (stream {:?})", c.lang, upper, texts()));
+                }
             }
             obs.label("iterator-protocol-checked");
         }
